@@ -269,6 +269,3 @@ pub fn gen(rng: &mut Rng, n: usize) -> Vec<Case> {
     v
 }
 
-pub fn git_oracle_line(_h: &crate::Hist) -> String {
-    "skip".into()
-}
